@@ -103,18 +103,16 @@ def execCodec (op : String) (a : List String) : String :=
 /-- stream `cfg`: configuration handling (main.go `toKeepNextHopRoute`, `createPreConfigHostResolver`) -/
 def execCfg (op : String) (a : List String) : String :=
   match op, a with
-  | "keep", [w] =>
-    let l := toLower (unhex w)
-    if [str "true", str "yes", str "1", str "on", str "t", str "y"].contains l then "true" else "false"
+  | "keep", [w] => if Side.Config.toKeepNextHopRoute (unhex w) then "true" else "false"
   | "deftimeout", [cfgv, env] =>
     -- the dialog timeout a service gets: its own setting when positive, else DEFAULT_DIALOG_TIMEOUT (when set and numeric), else 1200
     toString (Side.Config.dialogTimeout (parseInt cfgv) (if env == "~" then none else some (unhex env)))
   | "hosts", _ :: name :: pairs =>
     -- the table is a map filled in order: the LAST entry for a name wins (the service's section comes after the global one)
-    let rec last (acc : Option Bytes) : List String → Option Bytes
-      | n :: ip :: rest => last (if unhex n == unhex name then some (unhex ip) else acc) rest
-      | _ => acc
-    match last none pairs with
+    let rec toPairs : List String → List (Bytes × Bytes)
+      | n :: ip :: rest => (unhex n, unhex ip) :: toPairs rest
+      | _ => []
+    match Side.Config.lookupHost (toPairs pairs) (unhex name) with
     | some ip => s!"ip {toHexField ip}"
     | none => "none"
   | _, _ => "bad-op"
